@@ -3,7 +3,7 @@
    statement hole (YHole).  `plug` takes a filler for either kind of hole; a context has exactly one
    hole, so only the filler of the matching kind is used.  `at_e/at_s/at_b P C ctx` states P for the
    TypeCtx the checker has when it reaches the hole, having started at C with `ctx`
-   (enter_loop at a loop body, enter_fn at the body of a function).  Definitions only. *)
+   (enter_loop at a loop body, leave_loop at a loop condition, enter_fn at the body of a function).  Definitions only. *)
 From Coq Require Import String List NArith ZArith Bool.
 From Sylt Require Import Syntax.Resolved Types.TyGraph Types.Tc.
 Import ListNotations.
@@ -102,7 +102,8 @@ Section At.
   with at_s (C : sctx) (ctx : tctx) : Prop :=
     match C with
     | YHole => Ps ctx
-    | YAssignT _ c _ _ | YAssignV _ _ c _ | YDef _ _ _ _ c _ | YLoopC c _ _ | YRet c _ | YExpr c _ => at_e c ctx
+    | YAssignT _ c _ _ | YAssignV _ _ c _ | YDef _ _ _ _ c _ | YRet c _ | YExpr c _ => at_e c ctx
+    | YLoopC c _ _ => at_e c (leave_loop ctx)
     | YLoopB _ _ c _ _ => at_s c (enter_loop ctx)
     | YBlock _ c _ _ => at_s c ctx
     end.
@@ -155,7 +156,8 @@ Fixpoint ctx_at_e (C : ectx) (ctx : tctx) : tctx :=
 with ctx_at_s (C : sctx) (ctx : tctx) : tctx :=
   match C with
   | YHole => ctx
-  | YAssignT _ c _ _ | YAssignV _ _ c _ | YDef _ _ _ _ c _ | YLoopC c _ _ | YRet c _ | YExpr c _ => ctx_at_e c ctx
+  | YAssignT _ c _ _ | YAssignV _ _ c _ | YDef _ _ _ _ c _ | YRet c _ | YExpr c _ => ctx_at_e c ctx
+  | YLoopC c _ _ => ctx_at_e c (leave_loop ctx)
   | YLoopB _ _ c _ _ => ctx_at_s c (enter_loop ctx)
   | YBlock _ c _ _ => ctx_at_s c ctx
   end.
@@ -211,7 +213,8 @@ Section Path.
   with in_own_loop_s (C : sctx) (inl : bool) : bool :=
     match C with
     | YHole => inl
-    | YAssignT _ c _ _ | YAssignV _ _ c _ | YDef _ _ _ _ c _ | YLoopC c _ _ | YRet c _ | YExpr c _ => in_own_loop_e c inl
+    | YAssignT _ c _ _ | YAssignV _ _ c _ | YDef _ _ _ _ c _ | YRet c _ | YExpr c _ => in_own_loop_e c inl
+    | YLoopC c _ _ => in_own_loop_e c false
     | YLoopB _ _ c _ _ => in_own_loop_s c true
     | YBlock _ c _ _ => in_own_loop_s c inl
     end.
